@@ -7,6 +7,7 @@ import (
 	"errors"
 	"fmt"
 	"math"
+	"regexp"
 	"runtime"
 	"sort"
 	"strconv"
@@ -843,4 +844,41 @@ func foreignActivity(salt int) {
 	for _, s := range []string{"b0 && (i0 + 1 > 2 || c_id(b1))", "1 + no_such_function(2)", "a b", "!b0 ||", "if(b0, [1 -2 3], [])"} {
 		SafeCompile(cc, s)
 	}
+}
+
+var intTokRe = regexp.MustCompile(`^[+-]?[0-9]+$`)
+
+// respellInts rewrites some integer literals of a prefix program into other spellings of the same
+// number that the lexer accepts: leading zeros after the sign, an explicit plus sign. The choice is
+// a function of the text. Tokens are re-joined with single spaces.
+func respellInts(src string) string {
+	toks, comments := m.Lex(src)
+	if len(comments) != 0 {
+		return src
+	}
+	h := hash64(src)
+	out := make([]string, len(toks))
+	for i, tk := range toks {
+		txt := tk.Text
+		if tk.Kind == 'a' && intTokRe.MatchString(txt) {
+			sign, digits := "", txt
+			if txt[0] == '-' || txt[0] == '+' {
+				sign, digits = txt[:1], txt[1:]
+			}
+			switch (h + uint64(i)*7) % 5 {
+			case 1:
+				txt = sign + "0" + digits
+			case 2:
+				txt = sign + "00" + digits
+			case 3:
+				if sign == "" {
+					txt = "+" + digits
+				} else {
+					txt = sign + "0" + digits
+				}
+			}
+		}
+		out[i] = txt
+	}
+	return strings.Join(out, " ")
 }
